@@ -286,7 +286,66 @@ func describe(f *fn, a []val) string {
 	return fmt.Sprintf("%s(%s)", f.target(), strings.Join(toks(a), ", "))
 }
 
+// collector keeps, per signature, the count and the smallest witness, so that what is
+// reported does not depend on which goroutine got there first.
+type collector struct {
+	mu sync.Mutex
+	m  map[string]*agg
+}
+
+type agg struct {
+	n        int
+	what     string
+	replay   any
+	obs, exp string
+}
+
+var col = &collector{m: map[string]*agg{}}
+
+func (c *collector) Report(sig, what string, replay any, observed, expected string) {
+	c.mu.Lock()
+	defer c.mu.Unlock()
+	a := c.m[sig]
+	if a == nil {
+		a = &agg{what: what, replay: replay, obs: observed, exp: expected}
+		c.m[sig] = a
+	} else if rank(what) < rank(a.what) || (rank(what) == rank(a.what) && (len(what) < len(a.what) || (len(what) == len(a.what) && what < a.what))) {
+		a.what, a.replay, a.obs, a.exp = what, replay, observed, expected
+	}
+	a.n++
+}
+
+// rank prefers witnesses seen through the object API (they carry risor's error text).
+func rank(what string) int {
+	if strings.HasPrefix(what, "object") {
+		return 0
+	}
+	return 1
+}
+
+func (c *collector) flush(r *ev.Run) {
+	c.mu.Lock()
+	defer c.mu.Unlock()
+	sigs := make([]string, 0, len(c.m))
+	for s := range c.m {
+		sigs = append(sigs, s)
+	}
+	sort.Strings(sigs)
+	counts := map[string]int{}
+	for _, s := range sigs {
+		a := c.m[s]
+		counts[s] = a.n
+		for i := 0; i < a.n; i++ {
+			r.Report(s, a.what, a.replay, a.obs, a.exp)
+		}
+	}
+	if len(counts) > 0 {
+		r.Set("cases_by_signature", counts)
+	}
+}
+
 func Check(r *ev.Run, replay string) {
+	defer col.flush(r)
 	table := buildTable()
 	if replay != "" {
 		replayOne(r, table, replay)
@@ -426,7 +485,7 @@ func discover(r *ev.Run, table []*fn) bool {
 		o, ok := sharedModules["math"].GetAttr(name)
 		r.Eval(1)
 		if !ok || canonObj(o) != canonGo(want) {
-			r.Report("mismatch:math."+name, fmt.Sprintf("math.%s = %v, Go says %v", name, o, want), wcase{"W", "object", "math." + name, nil}, fmt.Sprint(o), fmt.Sprint(want))
+			col.Report("mismatch:math."+name, fmt.Sprintf("math.%s = %v, Go says %v", name, o, want), wcase{"W", "object", "math." + name, nil}, fmt.Sprint(o), fmt.Sprint(want))
 		}
 	}
 	return true
@@ -469,7 +528,7 @@ func partW(r *ev.Run, table []*fn, stride int) {
 			r.Eval(1)
 			r.Outcome(f.target() + "|" + ev.Clip(e.String(), 48))
 			if sig, obs := verdict(f, e, got, pan); sig != "" {
-				r.Report(sig, fmt.Sprintf("object API: %s -> %s; Go (%s): %s", describe(f, a), ev.Clip(obs, 160), f.note, ev.Clip(e.String(), 160)),
+				col.Report(sig, fmt.Sprintf("object: %s -> %s; Go (%s): %s", describe(f, a), ev.Clip(obs, 160), f.note, ev.Clip(e.String(), 160)),
 					wcase{"W", "object", f.target(), toks(a)}, obs, e.String())
 			}
 			if (idx-j.lo)%stride == 0 {
@@ -486,7 +545,7 @@ func partW(r *ev.Run, table []*fn, stride int) {
 		r.Eval(len(sc))
 		for i, c := range sc {
 			if sig, obs := verdict(c.f, scExp[i], res[i], pan[i]); sig != "" {
-				r.Report(sig, fmt.Sprintf("script: %s -> %s; Go (%s): %s", describe(c.f, c.a), ev.Clip(obs, 160), c.f.note, ev.Clip(scExp[i].String(), 160)),
+				col.Report(sig, fmt.Sprintf("script: %s -> %s; Go (%s): %s", describe(c.f, c.a), ev.Clip(obs, 160), c.f.note, ev.Clip(scExp[i].String(), 160)),
 					wcase{"W", "script", c.f.target(), toks(c.a)}, obs, scExp[i].String())
 			}
 		}
@@ -550,7 +609,7 @@ func replayOne(r *ev.Run, table []*fn, path string) {
 				fmt.Printf("math.%s = %v; Go: %v\n", name, o, want)
 				r.Eval(1)
 				if canonObj(o) != canonGo(want) {
-					r.Report("mismatch:"+c.Target, "constant differs", c, fmt.Sprint(o), fmt.Sprint(want))
+					col.Report("mismatch:"+c.Target, "constant differs", c, fmt.Sprint(o), fmt.Sprint(want))
 				}
 				return
 			}
@@ -577,6 +636,6 @@ func replayOne(r *ev.Run, table []*fn, path string) {
 	sig, obs := verdict(f, e, got, pan)
 	fmt.Printf("%s via %s\n  risor: %s\n  Go (%s): %s\n  verdict: %s\n", describe(f, a), c.Route, ev.Clip(obs, 300), f.note, ev.Clip(e.String(), 300), map[bool]string{true: "agree", false: sig}[sig == ""])
 	if sig != "" {
-		r.Report(sig, fmt.Sprintf("%s -> %s; Go: %s", describe(f, a), ev.Clip(obs, 160), ev.Clip(e.String(), 160)), c, obs, e.String())
+		col.Report(sig, fmt.Sprintf("%s -> %s; Go: %s", describe(f, a), ev.Clip(obs, 160), ev.Clip(e.String(), 160)), c, obs, e.String())
 	}
 }
